@@ -102,6 +102,8 @@ pub struct Machine<V: VringT<dmn::Mem> + Clone + Send + Sync + 'static> {
     /// eventfds of stopped rings the "frontend" keeps open until the end of the history
     kept_open: Vec<EventFd>,
     two_workers: bool,
+    /// a kick was just raised on a descriptor that is no ring's current one: (ring, dispatch counts before)
+    stale_kick: Option<(usize, usize, usize)>,
     /// SET_FEATURES without PROTOCOL_FEATURES carries the empty feature word (else two device bits)
     zero_sf: bool,
 }
@@ -119,7 +121,7 @@ impl<V: VringT<dmn::Mem> + Clone + Send + Sync + 'static> Machine<V> {
             report::inconclusive(&format!("negotiate: {e}"));
             return None;
         }
-        Some(Machine { s, fe, rings: vec![Ring::default(), Ring::default()], acked_pf: true, trace: Vec::new(), kept_open: Vec::new(), two_workers, zero_sf })
+        Some(Machine { s, fe, rings: vec![Ring::default(), Ring::default()], acked_pf: true, trace: Vec::new(), kept_open: Vec::new(), two_workers, stale_kick: None, zero_sf })
     }
 
     fn owner(&self, r: usize) -> (usize, u16) {
@@ -185,7 +187,9 @@ impl<V: VringT<dmn::Mem> + Clone + Send + Sync + 'static> Machine<V> {
                 if !m.complete() || m.body != spec::p_u64(0) {
                     return Err(format!("SET_VRING_KICK(nofd) not acknowledged: {:?} {:x?}", m.hdr_bytes, m.body));
                 }
-                self.rings[r].kick = None;
+                // the frontend withdrew the descriptor but still holds its eventfd: kicks on it are no longer
+                // kicks on the ring's current descriptor
+                self.rings[r].stale = self.rings[r].kick.take().or(self.rings[r].stale.take());
                 self.rings[r].pending = 0;
             }
             Op::Call(r) => {
@@ -243,6 +247,7 @@ impl<V: VringT<dmn::Mem> + Clone + Send + Sync + 'static> Machine<V> {
                     self.rings[r].raised += 1;
                 } else if let Some(k) = &self.rings[r].stale {
                     // a kick on the descriptor of the stopped ring: nothing may come of it
+                    self.stale_kick = Some((r, self.dispatches(0), self.dispatches(1)));
                     let _ = k.write(1);
                     report::count("kicks_on_stopped_ring_descriptor", 1);
                 }
@@ -300,6 +305,14 @@ impl<V: VringT<dmn::Mem> + Clone + Send + Sync + 'static> Machine<V> {
                 }
                 report::inconclusive("dispatch storm that the model cannot attribute");
                 return None;
+            }
+        }
+        // (every earlier kick was settled at the previous quiescent point, so nothing else can be dispatched now)
+        if let Some((r, d0, d1)) = self.stale_kick.take() {
+            let (n0, n1) = (self.dispatches(0), self.dispatches(1));
+            if n0 != d0 || n1 != d1 {
+                return Some(("C11:kick-on-withdrawn-descriptor:dispatched".to_string(), jo! {"descriptor_formerly_of_ring" => r, "ring_started" => self.rings[r].started, "ring_enabled" => self.rings[r].enabled,
+                    "ring_has_a_current_descriptor" => self.rings[r].kick.is_some(), "dispatches_ring0" => n0 - d0, "dispatches_ring1" => n1 - d1}));
             }
         }
         for r in 0..2 {
